@@ -1,6 +1,7 @@
 #include "doms.hpp"
 #include <crab/analysis/inter/bottom_up_inter_analyzer.hpp>
 #include <crab/analysis/inter/top_down_inter_analyzer.hpp>
+#include <crab/checkers/checker.hpp>
 using namespace vdom;
 using params_t = crab::analyzer::inter_analyzer_parameters<crab::cg_impl::z_cg_t>;
 template <typename InterAnalyzer, typename Dom>
@@ -49,3 +50,6 @@ void bu_run(crab::cg_impl::z_cg_t &cg, const params_t &params) {
 }
 template class crab::cg::call_graph<z_cfg_ref_t>;
 template class crab::cg::call_graph_ref<crab::cg_impl::z_cg_t>;
+// the checker of the bottom-up analyzer: no test of the repository instantiates it
+template class crab::checker::inter_checker<bu_t>;
+template class crab::checker::inter_checker<bu2_t>;
